@@ -363,4 +363,10 @@ def r16_6(ctx):
     ctx.check(not bad, outer.fq, "no repr cache keyed by value", outer.where, "reprs are not cached by value", "a repr cache keyed by the traversed value exists in traverse()")
 
 
-RULES = [r16_1, r16_2, r16_3, r16_4, r16_5, r16_6]
+def r16_7(ctx):
+    from .c13 import r13_2
+    from .common import borrow
+    borrow(ctx, r13_2, "R13.2", "R16.7", " [premise of 'kept on one line only if that line fits': Node.check_length measures the one-line form with cell_len, so the width-table lookup behind it must select the right range for every code point]")
+
+
+RULES = [r16_1, r16_2, r16_3, r16_4, r16_5, r16_6, r16_7]
